@@ -23,6 +23,9 @@ pub(crate) static mut IO_HEALTHY: bool = false;
 
 /// When set, every `read` checks that all bytes delivered so far have been committed to the
 /// PacketReader it points to: the projection's form of "progress is recorded before every await".
+/// When non-null: the operation under test is documented cancel-safe, so a multi-byte packet must
+/// not go through a direct writer while the handle (whose `live` flag this points to) stays live.
+pub(crate) static mut LIVE_PTR: *const bool = core::ptr::null();
 pub(crate) static mut READER_PTR: *const crate::de::PacketReader<'static> = core::ptr::null();
 
 impl crate::Io for SymIoP {
@@ -62,6 +65,21 @@ impl crate::Io for SymIoP {
             g::IO_WRITES += 1;
             g::IO_LAST_WLEN = buf.len();
             g::log(g::E_IO_WRITE);
+            // Every call of this function is a DIRECT writer (write_all / write_packet): queued
+            // packets are written by the A1 stub, which does not come through here.
+            assert!(
+                !(g::KIND != g::K_NONE && (g::WRITTEN > 0 || g::FLUSH)),
+                "C01/O3: a packet is written directly to the transport while another packet is partially on the wire"
+            );
+            if !LIVE_PTR.is_null() {
+                // write_all records its progress nowhere (c13_write_all_contract): if this write
+                // accepts only part of `buf` and the future is then dropped, a live handle is left
+                // in the middle of a packet.
+                assert!(
+                    !(*LIVE_PTR && buf.len() >= 2),
+                    "KF:F9/disconnect-cancel-midpacket C13: a cancel-safe operation writes a multi-byte packet through write_all while the handle stays live (cancellation after a partial write leaves a live handle mid-packet)"
+                );
+            }
             if !IO_HEALTHY && kani::any() {
                 g::IO_ERRS += 1;
                 return Err(ErrorKind::BrokenPipe);
@@ -273,6 +291,7 @@ pub(crate) fn reset_all() {
         IN_EOF = 0;
         READ_WOULD_BLOCK = false;
         READER_PTR = core::ptr::null();
+        LIVE_PTR = core::ptr::null();
         vc::WOULD_BLOCK = false;
         vc::NOW = 0;
         vc::NOW_CALLS = 0;
